@@ -25,6 +25,10 @@ type Scenario struct {
 	Ops []HubOp `json:"ops"`
 	// AOrder: true = node 0 must have the higher SKI
 	ZeroHigher bool `json:"zeroHigher"`
+	// AutoAccept[i]: hub i runs with auto accept on (announces register=true); the user-intent model is not applied to such a hub
+	AutoAccept []bool `json:"autoAccept,omitempty"`
+	// SlowAppMs[i]: the application of hub i needs this long for a pairing-detail notification
+	SlowAppMs []int `json:"slowAppMs,omitempty"`
 }
 
 // OpRec records when an op ran.
@@ -93,6 +97,14 @@ func Execute(sc Scenario) *Run {
 	if err := f.Connect(); err != nil {
 		r.Herr = err.Error()
 		return r
+	}
+	for i, n := range f.Nodes {
+		if i < len(sc.AutoAccept) && sc.AutoAccept[i] {
+			n.Hub.SetAutoAccept(true)
+		}
+		if i < len(sc.SlowAppMs) {
+			n.App.SlowPairing.Store(int64(sc.SlowAppMs[i]))
+		}
 	}
 	stop := make(chan struct{})
 	var wmu sync.Mutex
@@ -183,6 +195,12 @@ func (r *Run) apply(op HubOp) bool {
 			return false
 		}
 		return f.Proxies[[2]int{op.X, op.Y}].Cut() > 0
+	case "halfcut":
+		// only the dialler's socket is closed: x notices at once, y keeps a stale connection
+		if op.X == op.Y {
+			return false
+		}
+		return f.Proxies[[2]int{op.X, op.Y}].HalfCut() > 0
 	case "refuse":
 		if op.X == op.Y {
 			return false
